@@ -323,10 +323,14 @@ def run_history(rm, M0, ops, sparse, cls=None, sample=False, label="history"):
             REC.notes["unspecified:operation on 0x0 matrix"] += 1
             break
         try:
+            # the lists in the forms callers use: lists of Python ints, numpy integer arrays (np.where output), tuples
+            form = (step + len(ops) + n) % 3
             if kind == "m":
-                cur, il = rm.merge_matrix_cells(cur, [list(a) for a in arg], index_list=il)
+                jl = [list(a) for a in arg] if form == 0 else [np.array(a, dtype=np.int64) for a in arg] if form == 1 else [tuple(int(x) for x in a) for a in arg]
+                cur, il = rm.merge_matrix_cells(cur, jl, index_list=il)
             else:
-                cur, il = rm.delete_rate_cells(cur, list(arg), index_list=il)
+                rl = list(arg) if form == 0 else np.array(arg, dtype=np.int64) if form == 1 else tuple(int(x) for x in arg)
+                cur, il = rm.delete_rate_cells(cur, rl, index_list=il)
         except Exception as e:
             REC.crashed("C13.call_raised", e)
             return None
